@@ -361,7 +361,13 @@ func (a *sparseArrayObject) _defineIdxProperty(idx uint32, desc PropertyDescript
 					a.length = idx + 1
 				}
 			} else {
-				a.val.self.(*arrayObject).values[idx] = prop
+				ar := a.val.self.(*arrayObject)
+				ar.values[idx] = prop
+				ar.objCount++
+				if _, ok := prop.(*valueProperty); ok {
+					ar.propValueCount++
+				}
+				return ok
 			}
 		} else {
 			a.items[i].value = prop
